@@ -58,7 +58,15 @@ def repetition_caps(prog, rep, RID):
             for t in st.targets:
                 if isinstance(t, _ast.Subscript) and dotted(t.value) == "self.edge_upper_bounds":
                     n += 1
-                    tests = _enclosing_tests(f.node, st)
+                    tests = list(_enclosing_tests(f.node, st))
+                    # an earlier `if c: continue` of the same loop body is a guard `not c` of the store
+                    for lp_ in _ast.walk(f.node):
+                        if isinstance(lp_, (_ast.For, _ast.While)) and any(x is st for x in lp_.body):
+                            for sib in lp_.body:
+                                if sib is st:
+                                    break
+                                if isinstance(sib, _ast.If) and not sib.orelse and sib.body and isinstance(sib.body[-1], _ast.Continue):
+                                    tests.append((sib.test, False))
                     lit1 = isinstance(st.value, _ast.Constant) and st.value.value == 1
                     guard = any((not pol and "self.G.is_scc_edge(" in norm(tt) and not norm(tt).startswith("not")) or
                                 (pol and norm(tt).startswith("not self.G.is_scc_edge(")) for tt, pol in tests)
